@@ -167,14 +167,16 @@ var plans = map[string]Plan{
 		},
 	},
 	"C12": {
-		Pkg:   "c12",
-		Tools: []string{"bondgo"},
+		Pkg:       "c12",
+		Tools:     []string{"bondgo"},
+		RaceTools: []string{"bondgo"},
 		Runs: []Run{
 			{Test: "^TestProps$/^compile_faithful$", Checks: checks(60, 220), Shards: shards(4, 16), Timeout: tmo(15*time.Minute, 90*time.Minute)},
 			{Test: "^TestProps$/^compile_full$", Checks: checks(40, 140), Shards: shards(4, 16), Timeout: tmo(15*time.Minute, 90*time.Minute)},
 		},
 		Assumptions: []string{
 			"the real bondgo CLI (built from /repo with -tags verif) is run as a child process under a hard 10 s deadline for three schedule plans (GOMAXPROCS x VERIF_BONDGO_SCHED) per program; a hang is classified from a goroutine dump",
+			"half of the programs are compiled once more by the same CLI built with the Go race detector (GOMAXPROCS=4): a report is a violation of the schedule-independence clause at its cause, its output must equal the other runs', a deadline hit by that slower binary says nothing",
 			"semantic verdicts are taken on the Go simulator only when the emitted machine uses faithfully simulated opcodes (programs that use RAM variables compile to r2m/m2r: labelled needs-hdl, termination and determinism only)",
 			"-mpm programs with channels (workers started with go, helpers called inline with a channel argument) are judged semantically on harness/c12 SimulateBM: every processor stepped by the real simulator, the channel opcodes wwr/wrd/chw (TODO bodies in the simulator) given the unbuffered-rendezvous meaning of their descriptions and of the machine's Shared_links wiring",
 			"inputs are constants (i2r has no handshake); output identity is the declaration order of bondgo.Output variables",
@@ -211,12 +213,18 @@ var plans = map[string]Plan{
 			{Test: "^TestProps$/^cli_bmqsim$", Checks: checks(2, 5), Shards: shards(1, 2)},
 			{Test: "^TestProps$/^cli_bondgo$", Checks: checks(8, 40), Shards: shards(1, 1)},
 			{Test: "^TestProps$/^cli_bondmachine$", Checks: checks(10, 50), Shards: shards(1, 1)},
+			// "no output depends on goroutine timing": the same in-process entries under the race detector (a
+			// tool that splits its work among goroutines and lets them share what goes into the artefact is
+			// caught whether or not the schedules of this run happened to collide)
+			{Test: "^TestProps$/^inproc_neuralbond$", Checks: checks(3, 20), Shards: shards(1, 2), Race: true},
+			{Test: "^TestProps$/^inproc_basm$", Checks: checks(8, 60), Shards: shards(2, 4), Race: true},
 		},
 		Assumptions: []string{
 			"every input is run N times (6 quick, 30 thorough) as fresh child processes with GOMAXPROCS cycling 1/2/16 (CLI entries) or executed twice in-process on fresh instances with the process-wide registries reset; a nondeterminism with per-run probability p is missed with (1-p)^(N-1)",
 			"log timestamps are stripped and goroutine dumps of a crashing tool are cut after the panic line; no artefact on the exercised paths embeds time or randomness by design",
 			"a bondgo run that hits the timeout is dropped from the comparison (termination is C12's question); bondmachine -create-verilog without -simbox-file crashes deterministically after writing the files, which are still compared",
 			"machines with fxp opcodes are kept out of the HDL entries (their Verilog is read from /tmp/fxpcode, absent here)",
+			"inproc_basm and inproc_neuralbond are repeated under the Go race detector: a report whose frames are in the tool's packages counts as a dependence on goroutine timing (the detector sees unsynchronised sharing, not its effect on the bytes)",
 		},
 	},
 	"C15": {
